@@ -47,6 +47,12 @@ IMPORTS = {
          '"not taken from a neighbouring message": the response is bound to the transaction at the response cursor, and the list is never '
          'addressed by a stale ordinal (c02-7)'),
         ('C17', ['C17.c'], 'case-insensitive header lookup, first match: the table getters are the lookup the statement names'),
+        ('C10', ['C10.c'],
+         'repeated fields are combined up to the documented cap of the direction they belong to: a processor that tests or advances the other '
+         'direction\'s counter stops combining early (c02-13)'),
+        ('C11', ['C11.h'],
+         'host and port are reported fields: the host determination takes host and port together from one source (target or Host field), '
+         'row by row of the documented table (c02-15: port of the Host field attached to the host of the target)'),
     ],
     'C03': [
         ('C06', ['C06.b', 'C06.f'],
@@ -90,6 +96,9 @@ IMPORTS = {
          'exactly once: a framing line that was interpreted is cleared from the carry buffer (else its bytes are replayed into the body), and a '
          'piece read at the end of a chunk is set aside (else body framing bytes are lost) (c06-2, c06-9)'),
         ('C19', ['C19.e'], 'on a copied configuration the body-data hook of a direction holds that direction\'s callbacks (c06-7)'),
+        ('C17', ['C17.h', 'C17.i'],
+         'a chunk-decoded body is the entity body only if every chunk length is read as the whole digit run of its line and nothing but the digit '
+         'run (c17-14, c06-17: a chunk extension makes the length invalid)'),
         ('C02', ['C02.h'],
          'a Content-Length delimited body is the entity body only if the field value is cut at its last non-blank byte (c06-10: "12 " read as 1)'),
     ],
